@@ -84,10 +84,19 @@ def nproblem(p):
     acts, acts_json = [], []
     for a in p.actions:
         r = Refs(p)
-        for c in a.preconditions:
-            r.expr(c)
-        for e in a.effects:
-            r.effect(e)
+        if hasattr(a, "preconditions"):
+            for c in a.preconditions:
+                r.expr(c)
+            for e in a.effects:
+                r.effect(e)
+        else:                                   # DurativeAction
+            r.expr(a.duration.lower); r.expr(a.duration.upper)
+            for cl in a.conditions.values():
+                for c in cl:
+                    r.expr(c)
+            for el in a.effects.values():
+                for e in el:
+                    r.effect(e)
         params = [(pp.name, tname(pp.type)) for pp in a.parameters]
         acts.append("{| na_name := %s; na_params := %s; na_refs := %s |}" % (
             gstr(a.name), glist([gpair(gstr(n), gstr(t)) for n, t in params]), r.render()))
@@ -211,7 +220,7 @@ def run(ctx):
     import unified_planning as up
     ok_proofs = ctx.check_props(extra=["theories/Corr/Corr_C08.v"])
     rng = ctx.rng
-    per = 12 if ctx.quick else 150
+    per = 24 if ctx.quick else 150
     stats = {"outcomes": {}, "documented_rejections": {}, "wf_checked": 0, "fresh_cases": 0, "ground_cases": 0,
              "ground_names_with_counter": 0, "back_conversion_checked": 0, "adversarial_problems": 0}
     # ---- 1. get_fresh_name
@@ -269,6 +278,42 @@ def run(ctx):
         for j, msg in c.back_errors[:1]:
             ctx.fail("oracle", "%s: map_back_action_instance: %s" % (c.spec["id"], msg), tags + ["map-back"],
                      dict(cc.case_json(c), compiled_instance=c.comp.plan_json([j])), True)
+    # ---- 2b. temporal problems (durative actions) with colliding identifiers: compiled, checked for names / wf only
+    from unified_planning.engines.compilers import Grounder, ConditionalEffectsRemover, NegativeConditionsRemover
+    tcompilers = [("grounder", Grounder), ("conditional-effects-remover", ConditionalEffectsRemover),
+                  ("negative-conditions-remover", NegativeConditionsRemover)]
+    temporal = cc.temporal_family(rng, 8 if ctx.quick else 60)
+    stats["temporal_cases"] = 0
+    for g in temporal:
+        for cid, mk in tcompilers:
+            if not mk().supports(g.problem.kind):
+                continue
+            stats["temporal_cases"] += 1
+            tags = ["c08", cid, "durative-actions"]
+            payload = {"compiler": cid, "label": g.label, "problem_text": str(g.problem)}
+            try:
+                res = mk().compile(g.problem)
+            except Exception as e:  # noqa
+                if not cc.documented_rejection(e):
+                    ctx.fail("oracle", "%s.compile raised %s: %s on a temporal problem of its supported kind" % (
+                        cid, type(e).__name__, str(e)[:200]), tags + ["compile-raises", type(e).__name__], payload, True)
+                continue
+            term, summ = nproblem(res.problem)
+            wterms.append(term)
+            wowners.append((cc.Case(-1, {"id": cid, "members": [cid]}, g), summ, tags))
+            wowners[-1][0].comp = type("X", (), {"problem": res.problem})()
+            if res.plan_back_conversion is None:
+                ctx.fail("oracle", "%s: plan_back_conversion is None" % cid, tags + ["plan-back-conversion"], payload, True)
+        try:
+            t, raw = ground_case(g.problem)
+            gterms.append(t)
+            graw.append(dict(raw, problem_text=str(g.problem)))
+            names = [o for o in raw["observed"] if o is not None]
+            if len(set(names)) != len(names):
+                ctx.fail("oracle", "two ground (durative) actions share a name", ["c08", "grounder", "name-clash", "durative-actions"], graw[-1], True)
+        except Exception as e:  # noqa
+            ctx.fail("oracle", "GrounderHelper raised %s: %s on a temporal problem" % (type(e).__name__, str(e)[:150]),
+                     ["c08", "grounder", "compile-raises", "durative-actions"], {"problem_text": str(g.problem)}, True)
     # ---- 3. grounder naming on the same original problems (those whose actions have user-typed / small parameters)
     for c in cases:
         if "grounder" in c.spec["members"] and c.spec["members"][0] == "grounder" and c.raised is None:
